@@ -391,7 +391,7 @@ pub fn c06(ctx: &Ctx, rep: &mut Report) {
     let mut tried = 0;
     while groups.len() < count && tried < count * 20 {
         tried += 1;
-        let class = *rng.pick(&["uniform", "euclid", "blobs", "sorted", "revsorted", "negmixed", "shrinkline", "geomline", "neargap", "neargap"]);
+        let class = *rng.pick(&["uniform", "euclid", "blobs", "sorted", "revsorted", "negmixed", "shrinkline", "geomline", "neargap", "neargap", "ratioblobs"]);
         let mut n = gen::size(&mut rng, max_n).max(2);
         if class == "shrinkline" && rng.below(3) > 0 {
             n = rng.range(18.min(max_n), max_n.min(90));
@@ -399,18 +399,27 @@ pub fn c06(ctx: &Ctx, rep: &mut Report) {
         if class == "neargap" && rng.below(3) > 0 {
             n = rng.range(3, 12);
         }
-        let method = *rng.pick(&METHODS);
-        let w32 = rng.below(2) == 0;
+        if class == "ratioblobs" {
+            n = rng.range(5, 13);
+        }
+        let mut method = *rng.pick(&METHODS);
+        let mut w32 = rng.below(2) == 0;
+        if class == "ratioblobs" && rng.below(2) == 0 {
+            // the regime this class is for: squares of entries 1e23 apart in one f32 matrix
+            method = *rng.pick(&[Method::Ward, Method::Centroid, Method::Median]);
+            w32 = true;
+        }
         let vals0 = gen::matrix(&mut rng, class, n);
         // rescale by an exact power of two: tie-freeness is a relative notion, so inputs of very
         // small or large magnitude are as much in the property's domain as unit-scale ones
-        let k = *rng.pick(&[0i32, 0, -20, -40, 20, if w32 { -30 } else { -60 }]);
+        let k = if class == "ratioblobs" { 0 } else { *rng.pick(&[0i32, 0, -20, -40, 20, if w32 { -30 } else { -60 }]) };
         let vals0: Vec<f64> = vals0.iter().map(|x| x * 2f64.powi(k)).collect();
         rep.count(&format!("scale.2^{}", k));
         let bits = gen::to_bits(class, w32, &vals0);
         let vals: Vec<f64> = bits.iter().map(|&b| bits_to_f64(w32, b)).collect();
         let nv = oracle::naive_cluster(method, n, &vals);
-        if !(nv.margin > oracle::safe_margin(w32, method, n)) {
+        let certified = if class == "ratioblobs" { nv.rel_margin > 4.0 * oracle::safe_margin(w32, method, n) } else { nv.margin > oracle::safe_margin(w32, method, n) };
+        if !certified {
             rejected += 1;
             continue;
         }
@@ -1025,7 +1034,7 @@ pub fn c11(ctx: &Ctx, rep: &mut Report) {
     let mut tried = 0;
     while perms.len() < count && tried < count * 20 {
         tried += 1;
-        let class = *rng.pick(&["uniform", "euclid", "blobs", "sorted", "revsorted", "shrinkline", "geomline", "neargap"]);
+        let class = *rng.pick(&["uniform", "euclid", "blobs", "sorted", "revsorted", "shrinkline", "geomline", "neargap", "ratioblobs"]);
         let mut n = gen::size(&mut rng, max_n).max(3);
         if class == "shrinkline" && rng.below(3) > 0 {
             // deep nearest-neighbour chains need many observations
@@ -1044,12 +1053,14 @@ pub fn c11(ctx: &Ctx, rep: &mut Report) {
         let w32 = rng.below(2) == 0;
         let vals0 = gen::matrix(&mut rng, class, n);
         // exact power-of-two rescaling: tie-freeness is relative, small/large units are in the domain
-        let k = *rng.pick(&[0i32, 0, -20, -40, 20, if w32 { -30 } else { -60 }]);
+        let k = if class == "ratioblobs" { 0 } else { *rng.pick(&[0i32, 0, -20, -40, 20, if w32 { -30 } else { -60 }]) };
         let vals0: Vec<f64> = vals0.iter().map(|x| x * 2f64.powi(k)).collect();
         rep.count(&format!("scale.2^{}", k));
         let bits = gen::to_bits(class, w32, &vals0);
         let vals: Vec<f64> = bits.iter().map(|&b| bits_to_f64(w32, b)).collect();
-        if !(oracle::naive_cluster(method, n, &vals).margin > oracle::safe_margin(w32, method, n)) {
+        let nv = oracle::naive_cluster(method, n, &vals);
+        let certified = if class == "ratioblobs" { nv.rel_margin > 4.0 * oracle::safe_margin(w32, method, n) } else { nv.margin > oracle::safe_margin(w32, method, n) };
+        if !certified {
             rep.count("rejected_not_tie_free");
             continue;
         }
@@ -1315,6 +1326,25 @@ pub fn c14(ctx: &Ctx, rep: &mut Report) {
                 for alg in [Alg::Linkage, Alg::Nnchain] {
                     let w32 = variant % 2 == 1;
                     cases.push(Case { alg, method: m, w32, n, bits: gen::to_bits("uniform", w32, &vals), class: "staircase" });
+                }
+            }
+        }
+    }
+    // paths at the top of the range: consecutive observations at strictly decreasing huge distances, every
+    // other pair at T::MAX (finite): average / weighted updates overflow to +inf (never NaN), the chain is as
+    // deep as n.  The bound is stated for EVERY input, so these are in its domain.
+    for &n in (if ctx.thorough { &[64usize, 128, 256, 512][..] } else { &[64usize, 128, 200][..] }) {
+        for w32 in [false, true] {
+            let (unit, top) = if w32 { (1e33f64, f32::MAX as f64) } else { (1e300f64, f64::MAX) };
+            let mut vals = vec![];
+            for i in 0..n {
+                for j in i + 1..n {
+                    vals.push(if j == i + 1 { (2 * n - i) as f64 * unit / (2 * n) as f64 } else { top });
+                }
+            }
+            for &m in &[Method::Single, Method::Complete, Method::Average, Method::Weighted] {
+                for alg in [Alg::Linkage, Alg::Nnchain] {
+                    cases.push(Case { alg, method: m, w32, n, bits: vals.iter().map(|&x| f64_to_bits(w32, x)).collect(), class: "maxpath" });
                 }
             }
         }
